@@ -915,3 +915,32 @@ Proof.
   destruct (nkids call); [contradiction|]. cbv zeta in Hw.
   dmatch_in Hw. destruct Hw as [<-|[]]. exact He.
 Qed.
+
+(* ================= nilValReturn (fixed): the guard's right operand is the predeclared nil ================= *)
+Lemma nodot_nil : nodot "nil" = true.
+Proof. reflexivity. Qed.
+
+Lemma nilValReturn_real f : wf f = true -> forall w, In w (warnings (run_nilValReturn f)) -> is_real w = true.
+Proof.
+  intros W w H. apply run_stmt_warn in H as [e [He Hw]]. unfold nilValReturn_visit in Hw. cbv zeta in Hw.
+  destruct (negb (is_tag TIf e)); [contradiction|].
+  destruct (nth_error (kids e) (N.to_nat (na e))) as [cond|] eqn:Ec; [|contradiction].
+  destruct (nth_error (kids e) (N.to_nat (na e) + 1)) as [body|]; [|contradiction].
+  destruct (kids body) as [|ret [|? ?]]; try contradiction.
+  destruct (negb (is_tag TReturn ret)); [contradiction|].
+  assert (Hc : In cond (all_nodes f)) by (eapply all_nodes_kid; eauto; eapply nth_error_In; eauto).
+  destruct cond as [t p s a b ff k]. destruct t; try contradiction.
+  destruct k as [|x [|y [|? ?]]]; try contradiction.
+  destruct (N.eqb a tok_EQL && f_pure (nfacts x) && String.eqb (qualified_name y) "nil" && N.testbit (f_ext (nfacts y)) x_isnil) eqn:G; [|contradiction].
+  destruct (existsb _ _); [|contradiction]. destruct Hw as [<-|[]].
+  apply andb_true_iff in G as [G Nil]. apply andb_true_iff in G as [_ Q]. apply String.eqb_eq in Q.
+  assert (Hy : In y (all_nodes f)) by (apply (all_nodes_kid f _ y Hc); unfold kids; simpl; auto).
+  pose proof (wf_node_of _ _ W Hy) as Wy.
+  destruct y as [ty py sy ay by_ fy ky]. destruct ty; simpl in Q; try discriminate.
+  - (* an identifier spelled nil with the IsNil fact: wf says it is the universe nil *)
+    unfold wf_node, kids in Wy. simpl in Wy. destruct ky; [|discriminate Wy]. simpl in Nil, Wy. rewrite Nil in Wy.
+    unfold is_real. simpl. unfold obj_of. simpl. rewrite Wy. rewrite !orb_true_r. reflexivity.
+  - (* a selector is never spelled nil *)
+    exfalso. destruct ky as [|q [|sel [|? ?]]]; try discriminate. destruct q as [tq ? sq ? ? ? ?]. destruct tq; try discriminate.
+    pose proof nodot_nil as N0. rewrite <- Q in N0. simpl in N0. rewrite nodot_app_dot in N0. discriminate.
+Qed.
